@@ -95,7 +95,7 @@ fn m_record(variant: u8, x: &Enr) -> Option<Enr> {
 // 0x02: Handshake  challenge idx << 16 | claim << 12 | record << 8 | sig
 // 0x03: Way        active-request idx << 8 | src (0 the request's destination, 1 addr_M, 2 destination IP with another port, 3 IPv4-mapped / 4 IPv4-compatible form of the destination)
 // 0x04: Replay     log idx << 8 | src (0 original, 1 addr_M, 2 IPv4-mapped form of the original)
-// 0x05: Answer     shape 0..7 (M answers V's oldest request to M)
+// 0x05: Answer     which << 8 | shape 0..8 (M answers V's oldest request to M; which = 1: the oldest request of V's handler itself)
 // 0x08: MRequest   M sends a PING under the session keys it shares with V (once); arg 1: from the IPv4-mapped spelling of its address
 // 0x07: ZeroKey    a TALK request claiming X from X's address, encrypted under the all-zero key
 // 0x06: Late       0: more than a challenge lifetime passes; 1: 0.6 of a lifetime passes (free, at most twice)
@@ -248,8 +248,15 @@ impl Driver for Attack {
             let has_session = s.sessions.iter().any(|x| x.addr.socket_addr == m_addr());
             let has_req = s.active_requests.iter().any(|a| a.addr.socket_addr == m_addr());
             if has_session && has_req {
-                for shape in 0..8u32 {
+                for shape in 0..9u32 {
                     out.push((Ev::Ext(code(5, shape)), 1));
+                }
+                // the handler's own record request (FINDNODE [0] after a dial without a record)
+                // answered ahead of the application's request
+                if s.active_requests.iter().any(|a| a.addr.socket_addr == m_addr() && a.internal) && s.active_requests.iter().any(|a| a.addr.socket_addr == m_addr() && !a.internal) {
+                    for shape in [3u32, 4, 5, 8] {
+                        out.push((Ev::Ext(code(5, 1 << 8 | shape)), 1));
+                    }
                 }
             }
         }
@@ -396,7 +403,9 @@ impl Driver for Attack {
                     // M answers V's oldest request, using the session keys it shares with V
                     let s = w.snap(V).unwrap();
                     let sess = s.sessions.iter().find(|x| x.addr.socket_addr == m_addr()).cloned();
-                    let req = canon_requests(w).into_iter().find(|a| a.addr.socket_addr == m_addr());
+                    let want_internal = arg >> 8 == 1;
+                    let arg = arg & 0xff;
+                    let req = canon_requests(w).into_iter().find(|a| a.addr.socket_addr == m_addr() && (!want_internal || a.internal));
                     if let (Some(sess), Some(req)) = (sess, req) {
                         let x_rec = w.nodes[X].enr.clone();
                         let body = match (&req.body, arg) {
@@ -407,6 +416,8 @@ impl Driver for Attack {
                             // other genuine (publicly known) records of X: without any endpoint, IPv6 only
                             (_, 6) => v::ResponseBody::Nodes { total: 1, nodes: vec![util::enr(&util::key(100 + X as u16), &util::EnrSpec { seq: 2, ..Default::default() })] },
                             (_, 7) => v::ResponseBody::Nodes { total: 1, nodes: vec![util::enr(&util::key(100 + X as u16), &util::EnrSpec { seq: 2, ip6: Some(("2001:db8::11".parse().unwrap(), 9000)), ..Default::default() })] },
+                            // a validly signed record of yet another identity that advertises M's socket
+                            (_, 8) => v::ResponseBody::Nodes { total: 1, nodes: vec![util::enr4(&util::key(M_KEY + 1), 1, m_addr())] },
                             (_, 2) => v::ResponseBody::Talk { response: vec![9] }, // wrong type / garbage
                             (v::RequestBody::FindNode { .. }, 1) | (_, 1) => v::ResponseBody::Nodes { total: 3, nodes: vec![] },
                             (v::RequestBody::Ping { .. }, _) => v::ResponseBody::Pong { enr_seq: 1, ip: w.nodes[V].addr.ip(), port: 9000u16.try_into().unwrap() },
@@ -545,6 +556,15 @@ impl Driver for Attack {
                 }
                 if enr.node_id() != m_id() && enr.node_id() != x_id {
                     w.violate("C12", "harness", "established-unknown", "unknown id".into());
+                }
+            }
+            // C12: the service turns `Established` into a table entry; it is reported only for an identity
+            // a session exists with (proved by a handshake, or dialled and keyed to it), never merely
+            // because a validly signed record of it appeared in a NODES response
+            if let HandlerOut::Established(enr, addr, _) = &raw {
+                let k = (enr.node_id().raw(), *addr);
+                if !w.proved.contains(&k) && !w.initiated.contains(&k) {
+                    w.violate("C12", "a node becomes a routing-table entry only through an established session, never merely because its record appeared in a NODES response", "established-without-session", format!("V reported Established for {} at {addr} after {:?}; no session with that identity exists", w.name_of(&enr.node_id()), ev));
                 }
             }
             if let HandlerOut::UnverifiableEnr { .. } = &raw {
@@ -688,7 +708,7 @@ pub fn explore(prop: &str, thorough: bool, budget_s: f64, k_max: u32) -> (mc::St
             // worlds added for one mechanism each get the moves that mechanism needs (quick tier)
             let d_world = if name == "m-two-ports" {
                 // hellos and a genuine handshake from the second port, M's recorded datagrams from there
-                Attack { handshake_records: vec![1], handshake_sigs: vec![0], replays: false, ways: false, msgs: false, halves: false, two_ports: true, ..d.clone() }
+                Attack { handshake_records: vec![1], handshake_sigs: vec![0], replays: false, ways: false, msgs: true, halves: false, two_ports: true, ..d.clone() }
             } else if name == "v-rekeys-x" {
                 Attack { handshake_records: vec![], handshake_sigs: vec![], ways: false, halves: false, ..d.clone() }
             } else if name == "v-dials-m-retries2" && !thorough {
